@@ -78,6 +78,33 @@ def applyEdits (d : Bytes) (es : String) : Option Bytes :=
   if es == "-" then some d
   else (es.splitOn ",").foldl (fun acc e => acc.bind (fun d => applyEdit d e)) (some d)
 
+/-- are the edits well formed? (what `applyEdits` checks, without building the input: used for the
+parsers that have no model, whose outcome is only repeated) -/
+def editOk (e : String) : Bool :=
+  match e.toList with
+  | 't' :: r => (String.ofList r).toNat?.isSome
+  | 'a' :: r => (parseHex (String.ofList r)).isSome
+  | 'r' :: r =>
+    match (String.ofList r).splitOn ":" with
+    | [n, h] =>
+      match n.toNat?, parseHex h with
+      | some n, some x => decide (n * x.length ≤ 67108864)
+      | _, _ => false
+    | _ => false
+  | 'p' :: r =>
+    match (String.ofList r).splitOn ":" with
+    | [o, h] => o.toNat?.isSome && (parseHex h).isSome
+    | _ => false
+  | _ => false
+
+def editsOk (es : String) : Bool := es == "-" || (es.splitOn ",").all editOk
+
+/-- parsers with a front-end or complete model (everything else is oracle-only). -/
+def modelled (parser : String) : Bool :=
+  ["blte", "encchunk", "encoding", "install", "download", "size", "pindex", "zbsdiff", "zbsparse", "shmem", "idx",
+   "aidx", "agroup", "aidxc", "root", "tvfs", "parchive", "lru", "espec", "bpsv", "buildinfo", "updsec", "residency",
+   "localhdr", "lruload", "lruuse", "enchdr"].contains parser
+
 def md5H : Model.Integrity.Hash := Spec.Md5.md5
 
 /-- `ShmemControlBlock::from_mapped` around `PidTracking::from_mapped`. -/
@@ -150,6 +177,8 @@ def step (s : St) (t : List String) : St × String :=
   | ["run", parser, sid, es, c, k, cap, obs] =>
     match s.seeds.lookup sid, kvNat c "c", kvNat k "k", kvNat cap "cap", kv obs with
     | some seed, some c, some k, some cap, some ("obs", o) =>
+      if !modelled parser then (s, if editsOk es then s!"{o} big=0" else "bad-op")   -- oracle-only: nothing predicted
+      else
       match applyEdits seed es with
       | none => (s, "bad-op")
       | some d =>
